@@ -73,6 +73,13 @@ func (e *engine) Generate(r *lib.Rng, tier string, i int) any {
 			c.Decls[k].Indirect = true
 		}
 	}
+	// one declaration of source type Outer may come from START (the workflow's input) instead of a lambda node
+	for k := range c.Decls {
+		if d := &c.Decls[k]; d.S == "Outer" && !d.Indirect && r.Chance(1, 3) {
+			d.FromStart = true
+			break
+		}
+	}
 	return c
 }
 
@@ -121,6 +128,46 @@ func (e *engine) generate(r *lib.Rng, tier string, i int) any {
 		if c := g.nilCase(); c != nil {
 			return c
 		}
+	case r.Chance(1, 25):
+		// a successor whose input consists of static values only (SetStaticValue beside AddDependency, F-C15n)
+		T := tgtTypeW[r.Intn(len(tgtTypeW))]
+		c := &Case{T: T}
+		c.Note = "static-only:" + g.addStatics(c, g.enumPaths(T, g.depth, true))
+		if r.Chance(1, 2) {
+			g.addStatics(c, g.enumPaths(T, g.depth, true))
+		}
+		if len(c.Statics) > 0 {
+			return c
+		}
+	case r.Chance(1, 25):
+		// AddInput without mappings: the value itself; with a predecessor of interface type the edge checks
+		// the value against the successor's input type at request time
+		var both []string
+		for t := range tgtHandles {
+			if _, ok := srcHandles[t]; ok && !opaqueType(t) && t != "map[int]string" {
+				both = append(both, t)
+			}
+		}
+		sort.Strings(both)
+		T := both[r.Intn(len(both))]
+		S := T
+		switch r.Intn(4) {
+		case 0:
+			S = "any"
+		case 1:
+			S = both[r.Intn(len(both))] // mostly a static mismatch
+		}
+		mk := func() *V {
+			if S == "any" && T != "any" && r.Chance(3, 4) {
+				return g.value(T, g.depth) // a value of the right dynamic type
+			}
+			return g.value(S, g.depth)
+		}
+		d := Decl{S: S, Val: mk()}
+		if r.Chance(1, 3) {
+			d.Chunks = []*V{mk(), mk()}
+		}
+		return &Case{T: T, Decls: []Decl{d}, Note: "plain-edge"}
 	case r.Chance(1, 40):
 		// arrays and slices: opaque leaf types outside the model's universe (direct oracle only); in particular
 		// as the whole input of the successor (F-C15m)
@@ -229,6 +276,40 @@ func coqTerm(c *Case, o *outcome) string {
 	}
 	return "(MkCase genv gpenv " + coqTy(c.T) + " " + lib.CoqList(ds) + " " + lib.CoqList(sts) + " " + lib.CoqList(srcs) + " " + lib.CoqList(chunks) +
 		" " + oc + " " + oi + " " + os + " " + lib.CoqBool(len(o.SrcMod) > 0) + " [] [])"
+}
+
+// do the streamed chunks of every predecessor make up the value it returns in Invoke (one chunk = the value,
+// or a map split into chunks with disjoint keys): only then Stream and Invoke are two executions of one run
+func decomposed(c *Case) bool {
+	for i := range c.Decls {
+		d := &c.Decls[i]
+		chs := d.chunks()
+		if len(chs) == 1 {
+			if chs[0].String() != d.Val.String() {
+				return false
+			}
+			continue
+		}
+		if d.Val.K != "map" || d.Val.Nil {
+			return false
+		}
+		n := 0
+		for _, ch := range chs {
+			if ch.K != "map" || ch.T != d.Val.T || ch.IK != d.Val.IK {
+				return false
+			}
+			for k, e := range ch.F {
+				if w, ok := d.Val.F[k]; !ok || w.String() != e.String() {
+					return false
+				}
+				n++
+			}
+		}
+		if n != len(d.Val.F) {
+			return false
+		}
+	}
+	return true
 }
 
 const reps = 5
@@ -347,6 +428,15 @@ func (e *engine) Run(ci any) lib.Result {
 	}
 	if o.Compile == "panic" {
 		fail("panic:compile", "Compile panicked: "+o.CompMsg)
+	}
+	if o.Invoke == "garbage" {
+		fail("invoke-value", "Invoke: "+o.InvMsg)
+	}
+	if o.Stream == "garbage" {
+		fail("stream-value", "Stream: "+o.StrMsg)
+	}
+	if o.Concat == "garbage" {
+		fail("stream-concat", "Stream into an invokable successor: "+o.ConMsg)
 	}
 	if o.Invoke == "panic" || o.Invoke == "hang" {
 		fail(o.Invoke+":invoke", "Invoke: "+o.Invoke+" "+o.InvMsg)
@@ -477,7 +567,7 @@ func (e *engine) Run(ci any) lib.Result {
 			switch {
 			case o.Stream != "ok":
 				fail("stream-concat", "Stream into an invokable successor succeeded, into a stream-transparent one: "+o.Stream+" "+o.StrMsg)
-			case o.Invoke == "ok" && !looseEq(o.ConVal, o.InvVal):
+			case o.Invoke == "ok" && decomposed(c) && !looseEq(o.ConVal, o.InvVal):
 				fail("stream-concat", fmt.Sprintf("Invoke hands the successor %s, Stream (chunks concatenated) %s", loose(o.InvVal), loose(o.ConVal)))
 			}
 		case "err":
@@ -569,6 +659,12 @@ func (e *engine) Run(ci any) lib.Result {
 	for k := range c.Decls {
 		if c.Decls[k].Indirect {
 			res.Tags = append(res.Tags, "indirect")
+			break
+		}
+	}
+	for k := range c.Decls {
+		if c.Decls[k].FromStart {
+			res.Tags = append(res.Tags, "from-start")
 			break
 		}
 	}
